@@ -1,6 +1,6 @@
 (* Single entry point of the executable model: function number, then its arguments. *)
 From Coq Require Import List ZArith.
-From PGA Require Import Wire WireCont WireMisc WireDissim WireAlign2 WireFast WireSampler.
+From PGA Require Import Wire WireCont WireMisc WireDissim WireAlign2 WireFast WireSampler WireHeap.
 Import ListNotations.
 Local Open Scope Z_scope.
 
@@ -15,6 +15,7 @@ Definition run (s : list Z) : list Z :=
     else if f <? 500 then run_align2 (Z.to_nat (f - 400)) r
     else if f <? 600 then run_fast (Z.to_nat (f - 500)) r
     else if f <? 700 then run_sampler (Z.to_nat (f - 600)) r
+    else if f <? 800 then run_heap (Z.to_nat (f - 700)) r
     else [-2]
   | [] => [-3]
   end.
